@@ -193,6 +193,21 @@ CLAIMED = {
         "sampled correspondence; the plan-level semantics of stop/ignore are decided by the oracle and by C02, not proved here.",
         "DESIGN.md §7 C03",
     ),
+    "C02": (
+        "Lean 4 accounting proof over the two-pass pipeline (a successful run under stop reported exactly the planned renames, once each, none with override) + exhaustive enumeration of small plans x orders and random instrumented runs with the expected tree recomputed by the oracle",
+        "Proved in Lean for every renamer, tree, file list, plan and order: if a run under the stop strategy ends "
+        "successfully, the reported renames are a permutation of exactly the planned moves (each file whose generated "
+        "path differs from its own, once, to exactly that path), none uses override, and every file had a usable "
+        "generated path; each reported rename is a guarded call (C01/C06: it moves exactly its source onto a path that "
+        "did not exist). Partial: that the composition of these renames equals the plan applied to the initial tree, "
+        "that free plans succeed and that uniformly ordered chains succeed are NOT yet theorems; they are decided by "
+        "the oracle on every function from <=3 (quick) / <=4 (thorough) files into a name universe in every order "
+        "(exhaustive, labelled as a test) and on random multi-root runs in all modes, with the final tree compared "
+        "with the independently computed expectation and with the model.",
+        "Trusted: Lean kernel; hand-written pipeline model tied by sampled correspondence; plan values are the observed "
+        "results of path_generator.generate.",
+        "DESIGN.md §7 C02",
+    ),
 }
 
 NOT_YET = "check not built yet in this snapshot of /verif (work in progress, see DESIGN.md §7)"
